@@ -110,7 +110,14 @@ class Server(object):
             _FAMILY["root"], _FAMILY["sym"] = self.root, (mode == "sym")
             _FAMILY["tag"], _ = c07_files.build("one-file:scenario-constants", self.root, mode, env)
             self.mgr, self.eqs = "smf", c07_files.EQS
-        self.app = BptkServer(__name__, factory)
+        adapter = None
+        if _FAMILY["kind"] == "adapter":
+            # a server with an external state store (FileAdapter, own folder per server): instances are written out
+            # after their requests and looked up there when a request names an id that is not in memory
+            from BPTK_Py.externalstateadapter import FileAdapter
+            self.root = tempfile.mkdtemp(prefix="c16a-", dir=os.environ.get("VCHECK_SCRATCH"))
+            adapter = FileAdapter(False, self.root)
+        self.app = BptkServer(__name__, factory, adapter) if adapter is not None else BptkServer(__name__, factory)
         self.c = self.app.test_client()
         self.mode, self.env = mode, env or {}
         self.ids = {}
@@ -372,19 +379,40 @@ def run(tier):
                     rep.inconcl("file-backed factory %s: %s" % (t, info))
         finally:
             _FAMILY["kind"] = "dsl"
+        # ... and for a server with an external state adapter: one instance ends its session (memory ahead of its file),
+        # the other is stopped / times out and is then addressed again (a lookup in the store)
+        ab = ["start", "begin", "step_set", "end", "results", "step"]
+        adapter_cases = [(["start", "begin", "stop", "step"], ab, [(1, 0), (1, 1), (1, 2), (1, 3), (0, 0), (0, 1), (0, 2), (0, 3), (1, 4), (1, 5)]),
+                         (["start", "begin", "expire", "step"], ab, [(1, 0), (1, 1), (1, 2), (1, 3), (0, 0), (0, 1), (0, 2), (0, 3), (1, 4), (1, 5)]),
+                         (["start", "begin_set", "step", "stop", "results"], ["start", "begin", "step_set", "step", "results"],
+                          [(0, 0), (1, 0), (0, 1), (1, 1), (0, 2), (1, 2), (0, 3), (1, 3), (0, 4), (1, 4)])]
+        _FAMILY["kind"] = "adapter"
+        try:
+            for t in adapter_cases:
+                st, info = check_case(t[0], t[1], t[2], _G["timeout"])
+                counts[st] += 1
+                tasks.append(t)
+                if st == "violated":
+                    info = dict(info)
+                    info["_family"] = "adapter"
+                    bad.append((t, info))
+                elif st == "unknown":
+                    rep.inconcl("server with external state adapter %s: %s" % (t, info))
+        finally:
+            _FAMILY["kind"] = "dsl"
         rep.canary("factory-shares-scenarios-between-instances", canary_shared_model())
     finally:
         stubs.restore()
     seen = set()
     for (a, b, m), info in bad:
         what = info.get("_what", "")
-        sig = "interference:" + ("status" if "status" in what else ("structure" if "structure" in what else "value")) + (":file-backed" if info.get("_family") else "")
+        sig = "interference:" + ("status" if "status" in what else ("structure" if "structure" in what else "value")) + ({"files": ":file-backed", "adapter": ":state-adapter"}.get(info.get("_family"), ""))
         if sig in seen:
             continue
         seen.add(sig)
         env = {k: float(v) for k, v in info.items() if isinstance(v, (Fraction, int, float)) and not isinstance(v, bool)}
         rep.candidate(sig, {"sa": a, "sb": b, "merge": [list(x) for x in m], "env": env, "family": info.get("_family", "dsl")}, "scripts %s | %s interleaved %s: %s" % (a, b, m, what))
-    rep.assume("two instances; the bptk factory builds a fresh model per instance (as in the repository's server tests); 4 cases with a factory that builds bptk() from a scenarios/ folder (JSON file with an XMILE source)",
+    rep.assume("two instances; the bptk factory builds a fresh model per instance (as in the repository's server tests); 4 cases with a factory that builds bptk() from a scenarios/ folder (JSON file with an XMILE source); 3 cases on a server with an external state adapter (FileAdapter, uncompressed, own folder per server): end-session in one instance, stop / time-out and a late request in the other",
                "interleavings at request granularity (a spread sample of up to %d merges per script pair, always including 'all of one instance, then the other'; scripts of 3-5 requests starting with start-instance)" % lim,
                "instance ids differ between runs and are not compared; timestamps are not part of the compared responses",
                "timing out: the instance's last-access time is moved back by two hours (timeout one hour); the sweep runs in the next request to any instance")
